@@ -31,6 +31,10 @@ def suite_table(tree: Tree) -> Tuple[Module, ast.Dict, List[Tuple[bytes, str, as
     m = tree.module(CSP)
     node = m.assigns.get("cipher_suites")
     if not isinstance(node, ast.Dict):
+        # re-bound after the literal (rule T1 reports that): read the literal itself
+        lits = [st.value for st in m.tree.body if isinstance(st, ast.Assign) and any(isinstance(t, ast.Name) and t.id == "cipher_suites" for t in st.targets) and isinstance(st.value, ast.Dict)]
+        node = lits[0] if lits else None
+    if not isinstance(node, ast.Dict):
         raise AnchorMissing("dict literal `cipher_suites` not found in cipher_suite_parser.py")
     rows = []
     for k, v in zip(node.keys, node.values):
@@ -50,6 +54,18 @@ def rule_T1(tree: Tree) -> RuleResult:
     r.floor = 150
     m, node, rows = suite_table(tree)
     ref = load_ref()
+    # the tables are what their literals say: bound once, never re-built, never changed by code (a module-level `cipher_suites = {… for …}` or
+    # `cipher_suites[k] = …` makes every row below a statement about a table the program no longer uses)
+    for tname in ("cipher_suites", "cipher_suite_parts"):
+        r.instances += 1
+        binds = [st for st in ast.walk(m.tree) if isinstance(st, (ast.Assign, ast.AugAssign, ast.AnnAssign)) and any(
+            (isinstance(t, ast.Name) and t.id == tname) or (isinstance(t, ast.Subscript) and dotted(t.value) == tname)
+            for t in (st.targets if isinstance(st, ast.Assign) else [st.target]))]
+        muts = [c for c in ast.walk(m.tree) if isinstance(c, ast.Call) and isinstance(c.func, ast.Attribute) and dotted(c.func.value) == tname
+                and c.func.attr in ("update", "pop", "clear", "setdefault", "popitem", "__setitem__")]
+        r.ob(len(binds) == 1 and not muts, Finding("T1", f"{CSP}:{tname}:single-literal",
+                                                   f"`{tname}` must be bound exactly once, to its literal, and never modified; found {len(binds)} bindings / item assignments "
+                                                   f"and {len(muts)} mutating calls (e.g. `{src(binds[1], 70) if len(binds) > 1 else (src(muts[0], 70) if muts else '')}`)", m.relpath))
     seen: Dict[bytes, str] = {}
     for k, v, kn in rows:
         r.instances += 1
